@@ -6,21 +6,36 @@ package raft
 
 import (
 	"fmt"
+	"sync"
 )
 
 type caseStats struct {
+	mu      sync.Mutex
 	classes map[string]int
 	steps   int
 }
 
+// class may be called from any goroutine of the case (hooks, wire monitor).
 func (s *caseStats) class(name string) {
+	s.mu.Lock()
 	if s.classes == nil {
 		s.classes = map[string]int{}
 	}
 	s.classes[name]++
+	s.mu.Unlock()
 }
 
-func (s *caseStats) has(name string) bool { return s.classes[name] > 0 }
+func (s *caseStats) has(name string) bool {
+	s.mu.Lock()
+	defer s.mu.Unlock()
+	return s.classes[name] > 0
+}
+
+func (s *caseStats) count(name string) int {
+	s.mu.Lock()
+	defer s.mu.Unlock()
+	return s.classes[name]
+}
 
 type taskLedger struct {
 	maxPosDone  int               // highest Pos among updates observed successfully complete
